@@ -140,6 +140,9 @@ pub fn jobs(tier: Tier) -> Vec<Job> {
     for c in [blocks::nonce_chain(spec, 2), blocks::independent(spec, 2)] {
         v.push(pipeline_job("c05-coord", &c, &RunCfg::parallel(1), FOCUS_COORD_MIN, if tier == Tier::Quick { 6 } else { 8 }, true));
     }
+    if tier == Tier::Thorough {
+        v.push(pipeline_job("c05-coord", &blocks::nonce_chain(spec, 2), &RunCfg::parallel(1), FOCUS_COORD_MIN2, 7, true));
+    }
     for c in &two {
         let run = RunCfg::parallel(2);
         v.push(pipeline_job("c05-live", c, &run, FINE, if tier == Tier::Quick { 2 } else { 3 }, true));
